@@ -125,12 +125,23 @@ class Journaler:
             next_num_out: new expected num out (optional)
             next_num_in: new expected num in (optional)
         """
+        old_nums = (session.next_num_out, session.next_num_in)
+        try:
+            self._set_seq_num(session, next_num_out, next_num_in)
+        except Exception:
+            # refused (by the checks below or by the database, e.g. a number it
+            #  cannot store): nothing of the call stays, neither pending in the
+            #  transaction nor in the session object
+            self.conn.rollback()
+            session.next_num_out, session.next_num_in = old_nums
+            raise
+
+    def _set_seq_num(self, session, next_num_out, next_num_in):
         # both numbers are checked before either is applied: a refused call leaves
         #  the session object as it was
         assert next_num_out is None or next_num_out > 0
         assert next_num_in is None or next_num_in > 0
 
-        old_nums = (session.next_num_out, session.next_num_in)
         if next_num_out is not None:
             session.next_num_out = next_num_out
         else:
@@ -141,30 +152,20 @@ class Journaler:
         else:
             next_num_in = session.next_num_in
 
-        try:
-            self.cursor.execute(
-                "UPDATE session SET inboundSeqNo=?, outboundSeqNo=?"
-                "  WHERE sessionId = ?",
-                (next_num_in - 1, next_num_out - 1, session.key),
-            )
+        self.cursor.execute(
+            "UPDATE session SET inboundSeqNo=?, outboundSeqNo=?  WHERE sessionId = ?",
+            (next_num_in - 1, next_num_out - 1, session.key),
+        )
 
-            self.cursor.execute(
-                "DELETE FROM message"
-                " WHERE session = ? AND seqNo >= ? AND direction = ?",
-                (session.key, next_num_in, MessageDirection.INBOUND.value),
-            )
-            self.cursor.execute(
-                "DELETE FROM message"
-                " WHERE session = ? AND seqNo >= ? AND direction = ?",
-                (session.key, next_num_out, MessageDirection.OUTBOUND.value),
-            )
-            self.conn.commit()
-        except Exception:
-            # refused by the database (a number it cannot store): nothing of the
-            #  call stays, neither pending in the transaction nor in the session
-            self.conn.rollback()
-            session.next_num_out, session.next_num_in = old_nums
-            raise
+        self.cursor.execute(
+            "DELETE FROM message WHERE session = ? AND seqNo >= ? AND direction = ?",
+            (session.key, next_num_in, MessageDirection.INBOUND.value),
+        )
+        self.cursor.execute(
+            "DELETE FROM message WHERE session = ? AND seqNo >= ? AND direction = ?",
+            (session.key, next_num_out, MessageDirection.OUTBOUND.value),
+        )
+        self.conn.commit()
 
     def persist_msg(
         self,
